@@ -34,7 +34,8 @@ IsTieProbe == Has(Trace[1], "script") /\ Trace[1].timer = "eager"
 \* signature of the inc-timer finding: increasing timer, a late starter and a silent / crashed member (the members split into
 \* groups one round apart, none of them a quorum, and the re-arming of the timers keeps them apart)
 IsIncSig == /\ Has(Trace[1], "timer") /\ Trace[1].timer = "inc"
-            /\ \E i \in 1..TLen : Trace[i].ev \in {"Silent", "Crash"}
+            /\ \/ \E i \in 1..TLen : Trace[i].ev \in {"Silent", "Crash"}
+               \/ \E p \in Honest : ~st[p].started                         \* (cluster log: a member that never starts)
             /\ \E i \in 1..TLen : Trace[i].ev = "Start" /\ Trace[i].now > 0
 Slack == IF DevEagerTieDesync /\ IsTieProbe THEN N ELSE 0
 BoundedDecision == ended => \/ DevIncLateDesync /\ IsIncSig
